@@ -170,7 +170,9 @@ func Build() error {
 
 	// The directives only once every file is built: a profile that is read
 	// by another one (stack, exec) is read in its built form, whatever the
-	// names of the two files
+	// names of the two files. Nothing is written back before every file is
+	// processed, so it is also read with its own directives still in.
+	results := map[*paths.Path]string{}
 	for _, file := range files {
 		if !file.Exist() {
 			continue
@@ -183,8 +185,13 @@ func Build() error {
 		if err != nil {
 			return err
 		}
-		if err := file.WriteFile([]byte(profile)); err != nil {
-			return err
+		results[file] = profile
+	}
+	for _, file := range files {
+		if profile, ok := results[file]; ok {
+			if err := file.WriteFile([]byte(profile)); err != nil {
+				return err
+			}
 		}
 	}
 
